@@ -47,6 +47,11 @@ def replay(driver, prop, path):
     with open(path) as f:
         rec = json.load(f)
     case = rec["case"]
+    if isinstance(case, dict) and case.get("interpreter") == "-O" and not sys.flags.optimize:
+        # found by the reduced pass under `python -O`: replay it the same way
+        os.execv(sys.executable, [sys.executable, "-O", "-W", "ignore", "-m", "mc.run", prop, "--replay", path])
+    if isinstance(case, dict) and "interpreter" in case:
+        case = {k: v for k, v in case.items() if k != "interpreter"}
     obs = []
     for _ in range(2):
         signal.setitimer(signal.ITIMER_PROF, core.CASE_TIMEOUT_S)
